@@ -35,10 +35,12 @@ def run(ctx):
             diverged += 1
     ctx.samples.append(dict(schedule=srvlib.sched_of(beh[0]), reqs=beh[0]["reqs"], final=beh[0]["final"]))
     # un-gated sequential and concurrent mixes, scrapes during and after load; trace validated by TLC
-    summ, rej, nev = srvlib.load_and_validate(ctx, allk + ["huge"], 8 if ctx.quick else 60, 6 if ctx.quick else 16, scrapes=4)
+    # in round 1 one valid request's proof takes 12 s (65 s in the thorough tier) longer, as production-size proofs do: its response still counts once and arrives
+    summ, rej, nev = srvlib.load_and_validate(ctx, allk + ["huge"], 8 if ctx.quick else 60, 6 if ctx.quick else 16, scrapes=4, slow_ms=12000 if ctx.quick else 65000)
     for s in summ:
         if not s.get("metrics_ok"):
-            ctx.violation("after load round %d the metrics endpoint reports %s, the responses actually sent are %s" % (s["round"], json.dumps(s["metrics_got"]), json.dumps(s["metrics_want"])),
+            ctx.violation("after load round %d the metrics endpoint reports %s, the responses actually received are %s%s" % (s["round"], json.dumps(s["metrics_got"]), json.dumps(s["metrics_want"]),
+                                                                                                                        "; " + "; ".join(s.get("bad_responses") or [])[:400] if s.get("bad_responses") else ""),
                           dict(kind="srv-load", summary=s))
     if rej and not ctx.violations and rej["event"] and rej["event"].get("event", "").startswith("scrape"):
         ctx.violation("recorded scrape rejected by TraceServer.tla at line %d: %s" % (rej["line"], json.dumps(rej["event"])[:300]), dict(kind="srv-trace", rejection=rej))
